@@ -14,7 +14,7 @@
 (* transactions that contains every durable one (C02/C03); nothing tighter *)
 (* is demanded.                                                            *)
 (***************************************************************************)
-EXTENDS Pdb, Json, IOUtils, TLCExt
+EXTENDS Pdb, Json, IOUtils, TLCExt, Integers
 
 Rec == ndJsonDeserialize(IOEnv.TRACE)
 
@@ -145,6 +145,94 @@ TGetRet ==
     /\ pend' = [t \in DOMAIN pend \ {Ev.t} |-> pend[t]]
     /\ l' = l + 1
     /\ Stutter /\ UNCHANGED <<closed, sUnsynced, sDirty, sNeed>>
+
+----------------------------------------------------------------------------
+(* Structural soundness (C14 / C06 release / C09): the raw on-disk structure of a column, dumped by
+   the harness while the model says the pipeline is drained, must describe exactly the logical
+   content: free list well formed, every slot below the fill mark free or part of exactly one live
+   value, every live value indexed, as many values as live keys; btree sorted, uniform depth, no
+   unreachable slot. *)
+
+RECURSIVE FreeWalk(_, _, _)
+FreeWalk(sl, at, seen) ==
+    IF at = 0 THEN seen
+    ELSE IF at \notin 1..Len(sl) \/ at \in seen THEN seen \cup {-1}
+    ELSE IF sl[at].t # "free" THEN seen \cup {-1}
+    ELSE FreeWalk(sl, sl[at].next, seen \cup {at})
+
+FreeOK(tb) ==
+    LET w == FreeWalk(tb.slots, tb.free_head, {}) IN
+    /\ -1 \notin w
+    /\ w = {i \in 1..Len(tb.slots) : tb.slots[i].t = "free"}
+    /\ Len(tb.slots) = tb.filled - 1 \/ (tb.filled = 0 /\ Len(tb.slots) = 0)
+    /\ \A i \in 1..Len(tb.slots) : tb.slots[i].t # "bad"
+
+\* slots of the chain that starts at multipart head h (the set contains -1 if it is malformed)
+RECURSIVE ChainWalk(_, _, _)
+ChainWalk(sl, at, seen) ==
+    IF at \notin 1..Len(sl) \/ at \in seen THEN seen \cup {-1}
+    ELSE IF sl[at].t = "sized" THEN seen \cup {at}
+    ELSE IF sl[at].t = "mpart" THEN ChainWalk(sl, sl[at].next, seen \cup {at})
+    ELSE seen \cup {-1}
+ChainOf(sl, h) == ChainWalk(sl, sl[h].next, {h})
+
+MHeads(tb) == {i \in 1..Len(tb.slots) : tb.slots[i].t = "mhead"}
+ChainSlots(tb) == UNION {ChainOf(tb.slots, h) : h \in MHeads(tb)}
+RECURSIVE SumCard(_, _)
+SumCard(tb, S) == IF S = {} THEN 0 ELSE LET h == CHOOSE x \in S : TRUE IN
+                    Cardinality(ChainOf(tb.slots, h)) + SumCard(tb, S \ {h})
+ChainsOK(tb) ==
+    tb.multipart =>
+      /\ -1 \notin ChainSlots(tb)
+      /\ SumCard(tb, MHeads(tb)) = Cardinality(ChainSlots(tb))           \* no slot in two chains
+      /\ \A i \in 1..Len(tb.slots) : tb.slots[i].t = "mpart" => i \in ChainSlots(tb)
+
+\* value heads of a table: complete entries
+Heads(tb) ==
+    IF tb.multipart
+    THEN MHeads(tb) \cup {i \in 1..Len(tb.slots) : tb.slots[i].t = "sized" /\ i \notin ChainSlots(tb)}
+    ELSE {i \in 1..Len(tb.slots) : tb.slots[i].t = "head"}
+
+NumHeads(d) == LET RECURSIVE S(_)
+                   S(i) == IF i > Len(d.tables) THEN 0 ELSE Cardinality(Heads(d.tables[i])) + S(i + 1)
+               IN S(1)
+LiveKeys(c) == {k \in Keys : Present(logical[<<c, k>>])}
+
+HashDumpOK(d) ==
+    /\ \A i \in 1..Len(d.tables) : FreeOK(d.tables[i]) /\ ChainsOK(d.tables[i])
+    \* every live value is reachable through some index generation
+    /\ \A i \in 1..Len(d.tables) : \A h \in Heads(d.tables[i]) :
+           \E j \in 1..Len(d.index) : d.index[j].tier = d.tables[i].tier /\ d.index[j].off = h
+    \* exactly one stored value per live key (nothing leaked, nothing stored twice)
+    /\ NumHeads(d) = Cardinality(LiveKeys(d.c)) + d.ballast
+
+RECURSIVE AscendingFrom(_, _)
+AscendingFrom(s, i) == IF i >= Len(s) THEN TRUE ELSE (s[i] < s[i + 1] /\ AscendingFrom(s, i + 1))
+BtreeDumpOK(d) ==
+    /\ \A i \in 1..Len(d.tables) : FreeOK(d.tables[i]) /\ ChainsOK(d.tables[i])
+    /\ d.walk_ok /\ d.keys_sorted
+    \* the tree holds exactly the live keys, in order
+    /\ {d.keys[i] : i \in 1..Len(d.keys)} = LiveKeys(d.c) /\ Len(d.keys) = Cardinality(LiveKeys(d.c))
+    /\ AscendingFrom(d.keys, 1)
+    \* every leaf at the recorded depth
+    /\ \A i \in 1..Len(d.leaf_depths) : d.leaf_depths[i] = d.depth
+    \* no slot reached twice, and every used slot (but the header at tier 0, slot 1) is reached
+    /\ Cardinality({d.reach[i] : i \in 1..Len(d.reach)}) = Len(d.reach)
+    /\ {d.reach[i] : i \in 1..Len(d.reach)} =
+         UNION { { <<d.tables[i].tier, s>> : s \in {x \in 1..Len(d.tables[i].slots) : d.tables[i].slots[x].t # "free"} }
+                 : i \in 1..Len(d.tables) } \ {<<0, 1>>}
+
+\* steady insert-all / remove-all rounds: the fill marks of the value tables (and the set of
+\* existing tables) after every later round are those after the second round
+SteadyOK(m) == \A r \in 3..Len(m) : Len(m[r]) = Len(m[2]) /\ \A i \in 1..Len(m[r]) : m[r][i] <= m[2][i]
+TSteady == IsEvent("Steady") /\ ~closed /\ SteadyOK(Ev.marks) /\ Stutter /\ Advance /\ UNCHANGED closed
+
+ModelDrained == queue = <<>> /\ LwIdle /\ CwIdle /\ mode = "open" /\ \A i \in 1..Len(logs) : logs[i].st = "cq"
+
+TDump ==
+    /\ IsEvent("Dump") /\ ~closed
+    /\ ModelDrained => (IF Ev.kind = "btree" THEN BtreeDumpOK(Ev) ELSE HashDumpOK(Ev))
+    /\ Stutter /\ Advance /\ UNCHANGED closed
 
 ----------------------------------------------------------------------------
 (* btree iterator (C04): every returned (key rank, value id) must be the model's answer *)
@@ -374,6 +462,7 @@ TIgnored ==
 
 TraceNext ==
     \/ TCommit \/ TReject \/ TObs \/ TCounts \/ TGetCall \/ TGetRet
+    \/ TDump \/ TSteady
     \/ TCurOpen \/ TCurClose \/ TCurSeek \/ TCurFirst \/ TCurLast \/ TCurNext \/ TCurPrev
     \/ TPop \/ TBeginRecord \/ TAuxBegin \/ TEndRecord \/ TCleanCovl
     \/ TLogSync \/ TLogQueued
